@@ -32,6 +32,13 @@ STRATEGY = {
   (4) scale and long runs: something that only goes wrong with many elements (tens of series / actors / components / subscriptions / proposals), after a long history (hundreds of operations, a counter that grows, a buffer that fills, a cache that evicts) or with large magnitudes (timestamps years away, megawatts, week-long durations);
   (5) two independent features used together that each work alone (e.g. exclusion bounds AND operating point, fallback AND composition, removal AND re-adding, stop AND restart, duplicate request AND hand-over).
   A good change survives code review ("looks equivalent") and needs a specific scenario to show.""",
+    7: """* Find something genuinely different from ALL of the above.  Strategy for this round - pick TWO DIFFERENT ones of these angles:
+  (1) liveness instead of safety: nothing wrong is ever emitted, but under a specific legal schedule something the property promises simply never happens again (a task that ends silently, a future that is never resolved, a queue that is no longer drained, a flag that is never cleared, a timer that is never re-armed) - the system must not raise or log at ERROR level on the way;
+  (2) ordering between two outputs of the same component (two channels, a channel and a getter, a notification and the state it describes, a result and a status update) - each output alone stays correct, but an observer that looks at both sees a combination the property forbids;
+  (3) a change confined to a dependency-facing seam: how the code uses asyncio (gather/wait/wait_for/shield/TaskGroup/timeouts/cancellation), frequenz.channels (receiver limits, `resend_latest`, select, Timer policies, closing), datetime/timedelta arithmetic, float comparisons (`==`, `is_close_to_zero`, rounding), or containers (dict order, set, deque maxlen, bisect keys);
+  (4) "fixing" something that looks like a bug but is load-bearing: an apparently redundant check, re-computation, copy, sort, `await asyncio.sleep(0)`, second lookup or defensive `if` that a tidy-minded developer would remove;
+  (5) a difference between the FIRST use and LATER uses of the same object (first tick / first sample / first request / first failure vs the n-th), or between an object that was ever stopped/removed/expired and one that never was.
+  A good change survives code review ("looks equivalent") and needs a specific scenario to show.""",
 }
 
 
